@@ -403,6 +403,17 @@ def gen_plume_case(rng, sph):
         spec['narrow'] = 'min depth' in m
     f = dict(f)
     f['temperature models'] = [m]
+    # the plume's other documented closed forms next to the temperature model: uniform composition, uniform grains (a negative grain
+    # size means 1/N for N requested grains)
+    pc = rng.sample([0, 1, 2], rng.randint(1, 2))
+    pfr = [wg.num(rng, 0.05, 1.0) for _ in pc]
+    f['composition models'] = [{'model': 'uniform', 'compositions': pc, 'fractions': pfr}]
+    spec['pcomps'] = dict(zip(pc, pfr))
+    gc = rng.sample([0, 1], rng.randint(1, 2))
+    gm = [wg.rnd(wg.rot_matrix(rng)) for _ in gc]
+    gs = [wg.num(rng, 0.01, 1.0) if rng.random() < 0.5 else -1.0 for _ in gc]
+    f['grains models'] = [{'model': 'uniform', 'compositions': gc, 'rotation matrices': gm, 'grain sizes': gs}]
+    spec['pgrains'] = {c: (gm[i], gs[i]) for i, c in enumerate(gc)}
     doc['features'] = [wg.strip(f)]
     pts = []
     for _ in range(40):
@@ -421,6 +432,24 @@ def gen_plume_case(rng, sph):
 
 
 def expected_plume(spec, sx, sy, d):
+    out = _expected_plume_temperature(spec, sx, sy, d)
+    if out is None:
+        return None
+    inside = out[(4, 0, 0)][0] == 0.0
+    for c in (0, 1, 2):
+        out[(2, c, 0)] = [spec['pcomps'].get(c, 0.0) if inside else 0.0]
+    for (p, k) in (((3, 0, 2), 2), ((3, 1, 3), 3)):
+        c = p[1]
+        if inside and c in spec['pgrains']:
+            mat, size = spec['pgrains'][c]
+            sz = size if size >= 0 else 1.0 / k
+            out[p] = [sz] * k + [e for _ in range(k) for row in mat for e in row]
+        else:
+            out[p] = [0.0] * (10 * k)
+    return out
+
+
+def _expected_plume_temperature(spec, sx, sy, d):
     t = spec['t']
     g = spec['g']
     inside, margin = plume_reference(t, sx, sy, d)
